@@ -221,10 +221,13 @@ class StochasticSolver(ABC):
                 break
         main_time = time.perf_counter() - main_start
 
+        # Entry 0 is the starting value, entry k + 1 belongs to epoch k (the last epoch run
+        # is n_epoch); without any epoch only the starting value exists
+        n_trace = n_epoch + 2 if self._max_iters > 0 else 1
         info = {
-            "f_est_trace": fest_trace[0 : n_epoch + 1],
-            "step_trace": step_trace[0 : n_epoch + 1],
-            "time_trace": time_trace[0 : n_epoch + 1],
+            "f_est_trace": fest_trace[0:n_trace],
+            "step_trace": step_trace[0:n_trace],
+            "time_trace": time_trace[0:n_trace],
             "n_epoch": n_epoch,
         }
 
